@@ -232,6 +232,9 @@ impl Screen {
 
         (self.lines, self.columns) = (lines, columns);
         self.set_margins(None, None);
+        self.dirty.retain(|y| *y < lines);
+        self.cursor.x = self.cursor.x.min(columns);
+        self.cursor.y = self.cursor.y.min(lines - 1);
     }
 
     // Ensure the cursor is within horizontal screen bounds."""
